@@ -169,6 +169,17 @@ func IntRange(name string, lo, hi int) int {
 	return v
 }
 
+// Concrete returns x, which must lie in [lo,hi], as a concrete value: under the interpreter the loop
+// forks once per feasible value, so that code which needs a concrete number (a make() size) gets one.
+func Concrete(x, lo, hi int) int {
+	for v := lo; v <= hi; v++ {
+		if x == v {
+			return v
+		}
+	}
+	panic(assumeFailed{})
+}
+
 // Choose returns an arbitrary value in [0,n); the interpreter explores every one of them on
 // separate paths (the value stays concrete).
 func Choose(name string, n int) int {
